@@ -2,6 +2,8 @@
 #pragma once
 
 #include <tao/pegtl.hpp>
+#include <tao/pegtl/contrib/http.hpp>
+#include <tao/pegtl/contrib/integer.hpp>
 #include <tao/pegtl/contrib/json.hpp>
 #include <tao/pegtl/contrib/raw_string.hpp>
 
@@ -29,6 +31,20 @@ namespace sim::io
    struct stmt : pegtl::sor< assign, comment, triple > {};
    struct line : pegtl::seq< pegtl::star< pegtl::blank >, pegtl::opt< stmt >, pegtl::star< pegtl::blank >, pegtl::eolf > {};
    struct g_lines : pegtl::until< pegtl::eof, line > {};
+   // 3: integer rules with and without their converting actions, state = std::uint64_t
+   struct u_act : pegtl::seq< pegtl::one< 'u' >, pegtl::unsigned_rule_with_action, pegtl::one< ';' > > {};
+   struct m_act : pegtl::seq< pegtl::one< 'm' >, pegtl::maximum_rule_with_action< std::uint64_t, 999 >, pegtl::one< ';' > > {};
+   struct u_plain : pegtl::seq< pegtl::one< 'n' >, pegtl::unsigned_rule, pegtl::one< ';' > > {};
+   struct m_plain : pegtl::seq< pegtl::one< 'x' >, pegtl::maximum_rule< std::uint64_t, 999 >, pegtl::one< ';' > > {};
+   struct u_look : pegtl::seq< pegtl::one< 'l' >, pegtl::at< pegtl::unsigned_rule_with_action >, pegtl::sor< pegtl::seq< pegtl::disable< pegtl::maximum_rule_with_action< std::uint64_t, 999 > >, pegtl::one< ';' > >, pegtl::seq< pegtl::unsigned_rule_with_action, pegtl::one< ';' > > > > {};
+   struct g_unsigned : pegtl::until< pegtl::eof, pegtl::sor< u_act, m_act, u_plain, m_plain, u_look, pegtl::one< ' ' > > > {};
+   // 4: signed, state = std::int64_t
+   struct s_act : pegtl::seq< pegtl::one< 's' >, pegtl::signed_rule_with_action, pegtl::one< ';' > > {};
+   struct s_plain : pegtl::seq< pegtl::one< 't' >, pegtl::signed_rule, pegtl::one< ';' > > {};
+   struct s_look : pegtl::seq< pegtl::one< 'l' >, pegtl::not_at< pegtl::signed_rule_with_action, pegtl::one< '!' > >, pegtl::opt< pegtl::disable< pegtl::signed_rule_with_action > >, pegtl::one< ';' > > {};
+   struct g_signed : pegtl::until< pegtl::eof, pegtl::sor< s_act, s_plain, s_look, pegtl::one< ' ' > > > {};
+   // 5: HTTP chunked transfer coding (hand-written chunk rules carrying the chunk size as a private state)
+   struct g_chunked : pegtl::seq< pegtl::http::chunked_body, pegtl::eof > {};
    // clang-format on
 }  // namespace sim::io
 
